@@ -1227,3 +1227,36 @@ Proof.
   - repeat constructor. cbn. tauto.
   - vm_compute. discriminate.
 Qed.
+
+(* ------------------------------------------------------------------------------------------ *)
+(* a round that re-analyses nothing must still emit the cache                                    *)
+(* ------------------------------------------------------------------------------------------ *)
+Lemma noop_round_exact : forall c rt cfg,
+  snd (lint c rt cfg []) = emit cfg (filter (fun kv => primary_exists rt (fst kv)) c).
+Proof. intros. reflexivity. Qed.
+
+Lemma skip_empty_refuted :
+  exists c rt cfg dg,
+    cache_ok c rt /\ analyzed_covers rt rt []
+    /\ In dg (snd (lint c rt cfg [])) /\ spec_output rt cfg dg
+    /\ ~ In dg (snd (lint_skip_empty c rt cfg [])).
+Proof.
+  exists (fst (lint [] ex_root_twin ex_cfg_twin [(1, 100); (3, 100)])).
+  exists ex_root_twin, ex_cfg_twin, (514, 514).
+  split; [|split; [|split; [|split]]].
+  - split.
+    + vm_compute. repeat constructor; cbn; intuition discriminate.
+    + intros k ds Hin. vm_compute in Hin.
+      destruct Hin as [H|[H|[]]]; injection H as Hk Hds; subst k ds; vm_compute; reflexivity.
+  - intros k _. reflexivity.
+  - vm_compute. repeat first [left; reflexivity | right].
+  - exists (3, 100), ex_o_c, 514.
+    split; [vm_compute; reflexivity|]. split; [vm_compute; reflexivity|].
+    split; [|split; reflexivity].
+    assert (W : wf_events (group_events (group_of ex_root_twin (3, 100)))).
+    { apply wf_events_b_sound. vm_compute. reflexivity. }
+    destruct (unused_exact (group_of ex_root_twin (3, 100)) W) as [HU _].
+    apply (proj1 (HU ex_o_c)).
+    vm_compute. repeat first [left; reflexivity | right].
+  - cbn [lint_skip_empty snd]. intros H. exact H.
+Qed.
